@@ -294,6 +294,23 @@ def run(pid, tier, seed):
                 cases.append((Case(fl, argv + [arg], exp, note={"after": a, "before": b, "container": cont, "mtime": mt},
                                    mtimes=({arg: mt} if mt is not None else None)), msgs))
 
+        # ---- one bound given relative to the other (@+Ns / @-Ns), the other carrying a fraction of a second: the same instants
+        #      as when both are written out
+        for fi, (p, pgz, blob, msgs) in enumerate(files[: (8 if tier == "quick" else 40)]):
+            insts = sorted({(m[0], m[1]) for m in msgs})
+            if not insts:
+                continue
+            a = rng.choice(insts)
+            k_ = rng.choice([0, 1, 2, 5])
+            b = (a[0] + k_, a[1])
+            name = "r%d.log" % fi
+            exp = b"".join(m[2] for m in select(msgs, a, b))
+            for argv_w in (["-a", gen.fmt_ts(a[0], a[1], None, 6), "-b", "@+%ds" % k_], ["-a", "@-%ds" % k_, "-b", gen.fmt_ts(b[0], b[1], None, 6)]):
+                cont = ["plain", "gz"][len(cases) % 2]
+                fl, arg = ({name: blob}, name) if cont == "plain" else ({name + ".gz": gen.gz_bytes(blob)}, name + ".gz")
+                cases.append((Case(fl, ["--color", "never", "--blocksz", "4096"] + argv_w + [arg], exp,
+                                   note={"after": a, "before": b, "container": "relative-" + cont, "argv": argv_w}), msgs))
+
         # ---- several sources under one window: each is cut by the window, then merged (plain: binary search; gz: linear)
         for mi in range(4 if tier == "quick" else 30):
             pick = rng.sample(range(len(files)), min(len(files), rng.choice([2, 3])))
